@@ -68,7 +68,9 @@ def add(run, tier):
     import json
     n2 = 0
     for enc_, errors_, src_ in [(e_, r_, s_) for e_ in ('utf-8', 'latin-1', 'ascii', None) for r_ in (None, 'strict', 'replace', 'ignore', 'xmlcharrefreplace')
-                                for s_ in ('/x/src/in.js', '/x/src/\u30bd\u30fc\u30b9.js', '/x/src/caf\xe9.js')]:
+                                for s_ in ('/x/src/in.js', '/x/src/\u30bd\u30fc\u30b9.js', '/x/src/caf\xe9.js')] + [
+                                   # names whose bytes put 62 / 63 into the base64 text at every alignment ('+' and '/' of the standard alphabet)
+                                   ('utf-8', None, '/x/src/' + 'a' * k_ + t_) for k_ in (0, 1, 2) for t_ in ('>>>?.js', '~~~.js', '\u03c0\u03c0.js', '\xfb\xff.js')]:
         class St(object):
             def __init__(self):
                 self.buf = io.StringIO()
@@ -97,7 +99,7 @@ def add(run, tier):
         head, _, payload = text.partition(',')
         charset = head.rsplit('charset=', 1)[-1]
         try:
-            got = json.loads(base64.b64decode(payload).decode(charset))
+            got = json.loads(base64.b64decode(payload, validate=True).decode(charset))     # the standard alphabet, nothing else (RFC 2397 / 4648)
         except Exception as e:
             got = 'undecodable: %r' % (e,)
         if got != want:
